@@ -233,7 +233,18 @@ class CallMixin:
                 self.vc('call-pre/%s/%s@%d' % (fn.qualname, name, line), p, t, kind='call-pre', line=line)
             # frame
             for m in c.get('modifies', []):
-                self.havoc(self.resolve_mod(m, q), p, '@call%d' % line)
+                mods = self.resolve_mod(m, q)
+                self.havoc(mods, p, '@call%d' % line)
+                # a field the callee creates (absent before the call): it exists afterwards, with its declared kind
+                for mm in mods:
+                    if mm[0] == 'field' and mm[2] not in p.objs[mm[1]]:
+                        o = self.spec_value_ast(ast.parse(m, mode='eval').body.value, q)
+                        k = c.get('self_fields', {}).get(mm[2]) if o is selfv else None
+                        if k is None: k = self.field_kind(o.cls, mm[2])
+                        if isinstance(k, tuple) and k[0] == 'absent': k = k[1]
+                        if k is not None:
+                            from .engine import wf
+                            p.objs[mm[1]][mm[2]] = self.make_value(k, '%s@call%d' % (mm[2], line), p); p.assume(wf(p.objs[mm[1]][mm[2]]))
             q.heap = dict(p.heap); q.has = dict(p.has); q.objs = p.objs; q.ghost = p.ghost
             # the callee's recorded ghost histories are existentially quantified for the caller: fresh arrays per call
             saved_rk = self.rec_kinds
@@ -242,6 +253,10 @@ class CallMixin:
                 for nm, (kd, *_r) in lc.get('record', {}).items():
                     p.ghost['rec:' + nm] = fresh('REC_%s_%s@%d' % (fn.qualname.split('.')[-1], nm, line), z3.ArraySort(I, sort_of(kd)))
                     self.rec_kinds[nm] = kd
+            # locals of the callee that its postconditions mention: existential witnesses for the caller (fresh values)
+            for nm, k in c.get('late_locals', {}).items():
+                from .engine import wf
+                q.env[nm] = self.make_value(k, '%s_%s@%d' % (fn.qualname.split('.')[-1], nm, line), p); p.assume(wf(q.env[nm]))
             res = self.make_result(c.get('returns'), fn.qualname + '@%d' % line)
             if res is not None:
                 self.bind_result(q.env, res)
@@ -257,7 +272,11 @@ class CallMixin:
             try:
                 for i, src in enumerate(c.get('ensures', [])):
                     name, src = src if isinstance(src, tuple) else ('ens%d' % i, src)
-                    p.assume(self.spec_eval(src, q))
+                    try: p.assume(self.spec_eval(src, q))
+                    except Undecided as ex:
+                        # a postcondition about fields this caller's state does not hold (created by the callee with no
+                        # declared kind): the fact is simply not available to the caller
+                        if 'has no field' not in str(ex): raise
             finally:
                 self.old_stack.pop()
                 self.rec_kinds = saved_rk
@@ -290,6 +309,7 @@ class CallMixin:
 
     def make_result(self, k, name):
         if k is None: return None
+        if isinstance(k, tuple) and k[0] == 'statusstr': return VStr([('status', fresh('ret_' + name + '.code', I))])      # one of PuLP's five status texts
         return fresh_of_kind('ret_' + name, k)
 
     def bind_result(self, env, res):
